@@ -286,3 +286,38 @@ Proof.
   - intro E. apply (f_equal (@List.length string)) in E. rewrite firstn_length in E. simpl in E. lia.
   - intro E. apply (f_equal (@List.length string)) in E. rewrite skipn_length in E. simpl in E. lia.
 Qed.
+
+(* ------------------------------------------------------------------ frame at tree level: an add/remove at one site address leaves every site at an
+   unrelated address (neither a prefix of the other) exactly as it was *)
+Fixpoint addr_prefix (a b : list (list string)) : bool :=
+  match a, b with
+  | [], _ => true
+  | x :: a', y :: b' => path_eqb x y && addr_prefix a' b'
+  | _ :: _, [] => false
+  end.
+Lemma update_frame : forall addr f n n' addr', update_at addr f n = Some (Ok n') ->
+  addr_prefix addr addr' = false -> addr_prefix addr' addr = false -> site_at addr' n' = site_at addr' n.
+Proof.
+  induction addr as [|k addr IH]; intros f n n' addr' H H1 H2; [discriminate H1|].
+  destruct n as [rs ss | id]; [|discriminate]. cbn [update_at] in H.
+  destruct (dict_get_opt ss k) as [c|] eqn:Eg; [|discriminate].
+  destruct (update_at addr f c) as [[c'|e]|] eqn:Eu; try discriminate. inversion H; subst.
+  destruct addr' as [|k' addr']; [discriminate H2|]. cbn [site_at]. rewrite dict_get_set.
+  cbn [addr_prefix] in H1, H2. destruct (path_eqb k k') eqn:Ek.
+  - apply path_eqb_eq in Ek. subst k'. rewrite Eg. rewrite path_eqb_refl in H2. cbn [andb] in H1, H2.
+    apply (IH f c c' addr' Eu H1 H2).
+  - reflexivity.
+Qed.
+(* ... and the addressed site's own sub-sites other than the path touched stay reachable unchanged is add_frame / remove_resource_effect *)
+Lemma step_add_remove_frame : forall root o root' addr', step root o = (root', RDone) ->
+  match o with
+  | OAdd addr _ _ | ORemove addr _ => addr_prefix addr addr' = false /\ addr_prefix addr' addr = false
+  | _ => False
+  end -> site_at addr' root' = site_at addr' root.
+Proof.
+  intros root o root' addr' H Ho. destruct o as [addr p t | addr p | | | | | ]; try contradiction; destruct Ho as [H1 H2]; cbn [step] in H.
+  - destruct (update_at addr (fun s => add_resource s p (thing_child t)) root) as [[n'|e]|] eqn:E; cbn [apply_update] in H; inversion H; subst.
+    apply (update_frame addr _ root root' addr' E H1 H2).
+  - destruct (update_at addr (fun s => remove_resource s p) root) as [[n'|e]|] eqn:E; cbn [apply_update] in H; inversion H; subst.
+    apply (update_frame addr _ root root' addr' E H1 H2).
+Qed.
